@@ -1679,8 +1679,16 @@ class GroupBy:
                 values=_val_to_numpy(val_arr)[indexer],
                 alpha=alpha,
                 halflife=halflife,
-                times=None if times is None else times[indexer],
-                mask=None if mask is None else mask[indexer],
+                times=(
+                    None
+                    if times is None
+                    else (
+                        times.iloc[indexer]
+                        if isinstance(times, pd.Series)
+                        else times[indexer]
+                    )
+                ),
+                mask=None if mask is None else np.asarray(mask)[indexer],
             )
             .args
             for val_arr in value_list
